@@ -21,6 +21,11 @@ CLAIMS = {
   note="Finalisation-time errors (no single statement) assert the path, and a reported line must lie in that file. Known finding F5 (print path of dependencies) is listed in known_findings.json.",
   technique="deterministic simulation: seeded reach-order and formatting schedules with a line-map reference model",
   ref="§3 C17"),
+ "C13": dict(
+  text="Seeded exploration in World W with storage corruption of one definition inside the closure (torn writes at line / token / character boundaries, lost / duplicated / spliced blocks, token-level edits, character noise incl. control and non-ASCII characters, ~150 arithmetic and lexical corner fragments of bounded magnitude and nesting, service types used as values) or one stray directory entry (39 odd file and directory names incl. twins): the read returns or raises InvalidDefinitionError with a path inside the workspace; InternalError, foreign exceptions and hangs (watchdog) are violations.",
+  note="Bounded magnitude and nesting (pre-filter); not injected: unreadable files, non-UTF-8 bytes, directories named like definition files.",
+  technique="deterministic simulation: seeded storage-corruption faults on a simulated workspace, exception-class oracle, watchdog for termination",
+  ref="§3 C13"),
  "C19": dict(
   text="Seeded exploration in World W: one logical read is executed three times while the simulator rewrites, adds and renames files that the abstract namespace model proves to lie outside the dependency closure (garbage, every rule violation of the catalogue, failing @assert, @print, kind / extent / port-ID conflicts, odd directory names; malformed file names in a sub-mode); canonical results or the raised error (class, path, line) must be identical, and the print handler must never see an out-of-closure directive. Sampling, replayable.",
   note="Trusted: closure computed by the reference model; the open() monitor is a probe only. Not covered: I/O errors, non-UTF-8 bytes.",
